@@ -193,6 +193,7 @@ Definition d_handle (ev : cevent) : D unit :=
   | QCollFinish n ids =>
       d <- get ;;
       if d_shuttingdown d then ret tt else
+      if negb (mem_nat n (s_nodes (d_sched d))) then ret tt else     (* never handed to the scheduler *)
       hook (HCollFinished n) ;;;
       _ <- d_sched_op (SAddColl n ids) ;;
       d1 <- get ;;
